@@ -12,11 +12,22 @@ G = [('start: A B*\nA: "a"\nB: "b"\n', {}, ['a', 'abb', 'b']),
      ('?start: NAME | "(" start ")"\nNAME: /[a-z]+/\n%ignore " "\n', {'propagate_positions': True}, ['x', '( y )', '('])]
 
 
+def shape(x):
+    # structural value of a result: rule names and token (type, value) pairs - a cached parser names rules with plain str where a fresh
+    # one uses Token('RULE', ..): equal trees, different repr
+    from lark import Tree, Token
+    if isinstance(x, Tree):
+        return (str(x.data), [shape(c) for c in x.children], None if x.meta.empty else (x.meta.start_pos, x.meta.end_pos))
+    if isinstance(x, Token):
+        return (x.type, str(x))
+    return x
+
+
 def behaviour(p, inputs):
     out = []
     for t in inputs:
         try:
-            out.append(('ok', str(p.parse(t))))
+            out.append(('ok', shape(p.parse(t))))
         except Exception as e:
             out.append(('err', type(e).__name__))
     return out
@@ -39,7 +50,12 @@ try:
         fn = os.path.join(d, 'c%d.bin' % gi)
         Lark(g, parser='lalr', cache=fn, **opts)
         data = open(fn, 'rb').read()
-        f = io.BytesIO(data); f.readline(); hdr = f.tell(); pickle.load(f); body = f.tell()
+        f = io.BytesIO(data); f.readline(); hdr = f.tell()
+        try:
+            pickle.load(f)
+        except Exception:             # a second header line (digest of the rest of the file)
+            f.seek(hdr); f.readline(); pickle.load(f)
+        body = f.tell()
         step = 1 if tier == 'thorough' else 5
         offsets = sorted(set(list(range(0, len(data), step)) + [hdr - 1, hdr, hdr + 1, body - 1, body, body + 1, len(data) - 1]))
         for t in offsets:
@@ -57,17 +73,26 @@ try:
             if r2[0] != 'ok' or open(fn, 'rb').read() != d2 or os.stat(fn).st_mtime_ns != m1 or not d2.startswith(data[:hdr]):
                 note('repair', {'grammar': g, 'truncated_at': t}, 'after the rebuild the cache file is not a valid entry for this key (next build was not a clean hit)', 'a stale or damaged file is replaced by a valid one'); break
         if fail: break
-        if tier == 'thorough':
-            for t in range(0, body):
-                evals += 1
-                bad = bytearray(data); bad[t] ^= 0x01
-                open(fn, 'wb').write(bytes(bad))
-                r = build(g, fn, **opts)
-                if r[0] != 'ok':
-                    if isinstance(r[1], (MemoryError, OverflowError)): continue      # not modelled (stated assumption)
-                    note('corrupted-header', {'grammar': g, 'flipped_bit_at': t}, 'raised %r' % (r[1],), 'falls back to a rebuild'); break
-                if behaviour(r[1], inputs) != ref:
-                    note('corrupted-header', {'grammar': g, 'flipped_bit_at': t}, behaviour(r[1], inputs), ref); break
+        # damage anywhere in the file - header, recorded files, pickled parser: one flipped bit (two kinds: low bit, and the bit that
+        # changes the case of a letter, which tends to leave the pickle loadable), or a changed literal inside the pickled parser
+        flips = range(0, len(data)) if tier == 'thorough' else sorted(set(list(range(0, len(data), 7)) + list(range(0, body + 8))))
+        damaged = [('flipped_bit', t, m, bytes(data[:t] + bytes([data[t] ^ m]) + data[t + 1:])) for t in flips if t < len(data) for m in (0x01, 0x20)]
+        for lit in (b'a', b'b', b'start', b'NAME'):
+            k = data.find(lit, body)
+            while k != -1 and len(damaged) < 100000:
+                damaged.append(('changed_literal', k, lit.decode(), data[:k] + bytes([data[k] ^ 0x02]) + data[k + 1:]))
+                k = data.find(lit, k + 1)
+        for kind, t, m, bad in damaged:
+            evals += 1
+            open(fn, 'wb').write(bad)
+            r = build(g, fn, **opts)
+            where = 'header' if t < hdr else ('recorded-files' if t < body else 'body')
+            if r[0] != 'ok':
+                if isinstance(r[1], (MemoryError, OverflowError)): continue      # not modelled (stated assumption)
+                note('corrupted-' + where, {'grammar': g, kind: [t, m], 'of': len(data)}, 'raised %r' % (r[1],), 'falls back to a rebuild'); break
+            if behaviour(r[1], inputs) != ref:
+                note('corrupted-' + where, {'grammar': g, kind: [t, m], 'of': len(data)}, behaviour(r[1], inputs), ref); break
+        if fail: break
         open(fn, 'wb').write(data)
         # different options / grammar through the same file: never served stale
         variants = [dict(opts, start='other') if 'other:' in g else dict(opts, keep_all_tokens=True), dict(opts, maybe_placeholders=False),
